@@ -22,6 +22,8 @@ over events. Where the Go code re-applies stored patches (momentum insertion mer
 rebuild re-applies the patches of the blocks that still link) the model RE-VERIFIES the events on the new state and drops /
 refuses what does not verify; that both give the same pool and the same stores is what the `ledger-node` stream compares
 after every operation (pool contents per account, balances, markers, counters).
+A pooled block is verified against the FRONTIER confirmed state: the Go verifier reads the confirmed state as of the block's
+`MomentumAcknowledged`; the blocks of the stream acknowledge the frontier momentum (what a node's own blocks do).
 A store version is kept per momentum, as the versioned ledger DB does (C06 / C07 are about that DB): rollback pops versions.
 -/
 namespace ZV.LedgerNode
